@@ -646,6 +646,32 @@ func drainLoopsN(fn *ssa.Function) bool {
 
 func r154(c *Ctx, sig *types.Signature) {
 	p, r := c.P, c.R
+	// field channels whose receiver sits in a select with a ctx.Done() arm
+	recvMayWalkAway := map[string]string{}
+	for _, fn := range engineFuncs(p) {
+		core.Instrs(fn, func(_ *ssa.BasicBlock, _ int, ins ssa.Instruction) {
+			sel, ok := ins.(*ssa.Select)
+			if !ok {
+				return
+			}
+			hasCtx := false
+			for _, st := range sel.States {
+				if core.IsCtxDone(st.Chan) {
+					hasCtx = true
+				}
+			}
+			if !hasCtx {
+				return
+			}
+			for _, st := range sel.States {
+				if st.Dir == types.RecvOnly {
+					if f, ok := fieldOfLoad(st.Chan); ok {
+						recvMayWalkAway[f] = core.FuncName(fn)
+					}
+				}
+			}
+		})
+	}
 	for _, fn := range engineFuncs(p) {
 		name := core.FuncName(fn)
 		isCF := isCheckFuncTyped(fn, sig)
@@ -697,6 +723,10 @@ func r154(c *Ctx, sig *types.Signature) {
 					}
 				}
 				_ = isCF
+				if f, ok := fieldOfLoad(x.Chan); ok && fieldChanCapacity(p, fn, f) == 0 && recvMayWalkAway[f] != "" {
+					r.Violate("R15.4", name, construct, p.Pos(x.Pos()), "plain send on the unbuffered field channel "+f+" outside a select: its receiver ("+recvMayWalkAway[f]+") selects on ctx.Done() as well and can leave, after which this send blocks forever and cancellation cannot reach it")
+					return
+				}
 				r.Undecide("R15.4", name, construct, p.Pos(x.Pos()), "plain blocking send not in a recognised class (result delivery, buffered prologue token)")
 			case *ssa.UnOp:
 				if x.Op != token.ARROW {
